@@ -75,6 +75,9 @@ def mk(kind, seed):
             G = cfgsrc.build(cfgsrc.random_src(rng, cnf=True))
             if G.is_chomsky():
                 return G
+    if kind == "pda_tree":
+        # a finite, branching epsilon closure of 127 / 255 / 511 configurations: complete under the default limit
+        return pdasrc.tree_pda(6 + seed % 3)
     if kind == "pda":
         return pdasrc.build({"kind": "pda_rnd", "seed": seed})
     if kind == "pda_pp":
@@ -180,6 +183,8 @@ def ops_table():
         "cfg_cyk_matrix": (["cnf"], lambda G, s: sorted((k, sorted(v)) for k, v in ca.cfg_cyk_matrix(G, word_for(G, s) or "a").items() if v), V),
         "pda_accepts_word": (["pda"], W(pa.pda_accepts_word), V),
         "pda_words_up_to_n": (["pda"], lambda P, s: pa.pda_words_up_to_n(P, 2), V),
+        # with the library's DEFAULT iteration limit (the other PDA operations run under a small explicit one)
+        "pda_accepts_word/default_limit": (["pda_tree"], lambda P, s: [pa.pda_accepts_word(P, w) for w in ("", "a", "aa")], V),
         "pda_to_push_pop": (["pda"], U1(pa.pda_to_push_pop), "pda"),
         "pda_to_accept_on_empty_stack": (["pda"], U1(pa.pda_to_accept_on_empty_stack), "pda"),
         "pda_to_cfg": (["pda"], U1(pa.pda_to_cfg), "cfg"),
@@ -256,7 +261,9 @@ def run_case(case, table, logging):
         warm_up(args)
     before = snapshot(args)
     GambaTools.enable_logging = logging
-    GambaTools.pda_epsilon_closure_max_iterations = 60
+    default_limit = GambaTools.pda_epsilon_closure_max_iterations
+    if not case["opname"].endswith("/default_limit"):
+        GambaTools.pda_epsilon_closure_max_iterations = 60
     buf = io.StringIO()
     try:
         with contextlib.redirect_stdout(buf):
@@ -265,7 +272,7 @@ def run_case(case, table, logging):
             r2, x2 = guarded(lambda: fn(*args, case["seed"]), 30)
     finally:
         GambaTools.enable_logging = False
-        GambaTools.pda_epsilon_closure_max_iterations = 1000
+        GambaTools.pda_epsilon_closure_max_iterations = default_limit
     after = snapshot(args)
     ev = {"op": "pure_call", "opname": case["opname"], "case": case["id"], "rkind": rkind, "before": before,
           "after": after if mid == before else mid, "exc": x1, "exc2": x2, "logging": logging,
